@@ -47,6 +47,9 @@ def make_world():
         "dA1": numpy.array([0, 1, 1], dtype=numpy.int64),
         "dB0": numpy.array([1, 0, 1], dtype=numpy.int64),
         "dB1": numpy.array([0, 0, 1], dtype=numpy.int64),
+        # a cube of each type with a DIFFERENT number of rows, for function objects that do not depend on N
+        "dD0": numpy.array([1, 0, 1, 1, 0], dtype=numpy.int64),
+        "dD1": numpy.array([0, 0, 1, 2, 2], dtype=numpy.int64),
     }
     pristine = {"arg:" + k: (a.dtype.str, a.shape, a.tobytes()) for k, a in args.items()}
     fA = (args["fA_vals"], args["fA_ok"])
@@ -58,14 +61,19 @@ def make_world():
         "iA1": M.build_index(args["dA1"], 0),
         "iB0": M.build_index(args["dB0"], 2),
         "iB1": M.build_index(args["dB1"], 0),
+        "iD0": M.build_index(args["dD0"], 1),
+        "iD1": M.build_index(args["dD1"], 2),
     }
-    dims_lists = {"cA": [idx["iA0"], idx["iA1"]], "cB": [idx["iB0"], idx["iB1"]], "xA": [args["dA0"], args["dA1"]], "xB": [args["dB0"], args["dB1"]]}
+    dims_lists = {"cA": [idx["iA0"], idx["iA1"]], "cB": [idx["iB0"], idx["iB1"]], "xA": [args["dA0"], args["dA1"]], "xB": [args["dB0"], args["dB1"]],
+                  "cD": [idx["iD0"], idx["iD1"]], "xD": [args["dD0"], args["dD1"]]}
     shape = (3, 3)
     cubes = {
         "cA": ccube(dims_lists["cA"], interacting_shape=shape),
         "cB": ccube(dims_lists["cB"], interacting_shape=shape),
         "xA": xcube(dims_lists["xA"], interacting_shape=shape),
         "xB": xcube(dims_lists["xB"], interacting_shape=shape),
+        "cD": ccube(dims_lists["cD"], interacting_shape=shape),
+        "xD": xcube(dims_lists["xD"], interacting_shape=shape),
     }
     ff = {
         "count": F.ffunc_count(),
@@ -153,6 +161,10 @@ def events(max_sel, func_subset=None):
                 out.append(("calc", cube, sel))
         for s in SHORTCUTS[cube[0]]:
             out.append(("short", cube, s))
+    # cubes with a different row count: only function objects that do not carry per-row arguments
+    for cube in ("cD", "xD"):
+        out.append(("calc", cube, ("count",)))
+        out.append(("short", cube, "count"))
     return out
 
 
